@@ -160,7 +160,7 @@ def u_gram_step(h, penalty, X, greedy):
             h.ensure('opt-fresh[%d]' % j, h.eq(opt[j], sc[j]))
 
 
-def u_group_step(h, datafit, layout, X, g, positive=False, sparse_twin=False, sparse_epoch=False):
+def u_group_step(h, datafit, layout, X, g, positive=False, sparse_twin=False, sparse_epoch=False, descent=False):
     """one group of the real _bcd_epoch (and sparse twin): consistency, feasibility, untouched others"""
     from skglm.solvers.group_bcd import _bcd_epoch, _bcd_epoch_sparse
     Xc = X_of(X)
@@ -188,6 +188,11 @@ def u_group_step(h, datafit, layout, X, g, positive=False, sparse_twin=False, sp
     for k in lay[g]:
         h.observe('w%d' % k, w1[k])
     h.ensure('consistency', _consistent(h, Xc, w1, 0.0, Xw1))
+    if descent:
+        # the block step with the datafit's own block constant never increases the objective (real value() code)
+        F0 = df.value(y, w, Xw) + pen.value(w)
+        F1 = df.value(y, w1, Xw1) + pen.value(w1)
+        h.ensure('descent', h.le(F1, F0))
     if positive:
         h.ensure('feasible', h.all_([h.ge(w1[k], 0) for k in lay[g]]))
     for k in range(p):
